@@ -47,9 +47,39 @@ def seeds_table():
         out.append("| %s | %s | %s | %s | %s |" % (name, m["change"], m["needs_to_manifest"], res, m.get("why_missed", "")))
     return "\n".join(out)
 
+def seeds_summary():
+    metas = [json.load(open(d)) for d in sorted(glob.glob(os.path.join(root, "seeded", "*", "meta.json")))]
+    total = len(metas)
+    caught = sum(1 for m in metas if m["caught_by"])
+    gone = sum(1 for m in metas if not m["caught_by"] and "no longer" in m["status"])
+    missed = sum(1 for m in metas if not m["caught_by"] and m["status"] == "missed")
+    other = total - caught - gone - missed
+    # first evaluation of every seed (before any strengthening prompted by it)
+    first = {}
+    for log in sorted(glob.glob(os.path.join(root, "seeded", "eval-logs", "*.log"))):
+        for blk in re.split(r"(?m)^=== ", open(log).read())[1:]:
+            name = blk.split("\n")[0].strip()
+            body = blk[len(name):]
+            try:
+                j = json.loads(body[body.index("{"):body.rindex("}") + 1])
+            except Exception:
+                continue
+            ch = j.get("checks", {})
+            if name in first or not ch:
+                continue
+            first[name] = (os.path.basename(log)[:2], any(isinstance(v, dict) and v.get("violations", 0) > 0 for v in ch.values()))
+    rounds = (("1", ("01", "02", "03", "04", "05")), ("2", ("06", "07")), ("3", ("08", "09")), ("4", ("10",)))
+    lines = ["| round | seeds | caught at first evaluation |", "|---|---|---|"]
+    for r, pre in rounds:
+        xs = [c for (l, c) in first.values() if l in pre]
+        lines.append("| %s | %d | %d |" % (r, len(xs), sum(1 for c in xs if c)))
+    lines.append("")
+    lines.append("Final state, all seeds re-evaluated against the final checks and the final (repaired) tree: **%d seeds, %d caught, %d missed, %d no longer applicable** (the patch overlaps a later `fix:` commit and could not be rebased meaningfully)%s." % (total, caught, missed, gone, (", %d not evaluated" % other) if other else ""))
+    return "\n".join(lines)
+
 p = os.path.join(root, "DESIGN.md")
 s = open(p).read()
-for tag, fn in (("CHECKS", checks_table), ("FIXES", fixes_table), ("SEEDS", seeds_table)):
+for tag, fn in (("CHECKS", checks_table), ("FIXES", fixes_table), ("SEEDSUM", seeds_summary), ("SEEDS", seeds_table)):
     b, e = "<!-- %s-BEGIN -->" % tag, "<!-- %s-END -->" % tag
     if b in s and e in s:
         i, j = s.index(b) + len(b), s.index(e)
